@@ -110,7 +110,7 @@ pub fn build(c: &C10Case) -> Case {
         rng: [vec![ID_BY0, ID_BY1, ID_TARGET, ID_HALF, ID_STALE, ID_REQ, ID_BINDREQ, ID_LATE], vec![]],
         streams,
         binds: vec![BindSpec { side: 0, dgram: false, host: b"x".to_vec(), port: 3, delay: 0 }],
-        bind_policy: [BindPolicy { answers: vec![BindAnswer::Hold; 64], batch: 1, order: vec![], enabled: c.binds_enabled }, BindPolicy::default()],
+        bind_policy: [BindPolicy { answers: vec![BindAnswer::Hold; 64], batch: 1, order: vec![], enabled: c.binds_enabled, ping_first: false }, BindPolicy::default()],
         dg_readers: [DgReader::Eager, DgReader::None],
         raw: Some(RawPolicy { reject_first: 0, ack_connects: Some(64), ack_every: Some(1), answer_close: true, no_ack_streams: vec![5] }),
         events,
